@@ -380,6 +380,8 @@ def sigma_py(form, n):
         return np.full(n, 0.1)
     if form.startswith("mat"):
         return np.full((n, int(form.split()[1])), 0.1)
+    if form.startswith("vecL"):
+        return np.full(int(form.split()[1]), 0.1)
     raise ValueError(form)
 
 
@@ -416,7 +418,14 @@ def run_estimator(p):
         pred = e.predict
         dev = 0.0 if est == "dim" else float(np.max(np.abs(np.asarray(pred(X)) - np.asarray(e.log_density_x))))
         lmr = None if e.landmarks is None else int(np.asarray(e.landmarks).shape[0])
-        return ("ok", e.gp_type.value, tuple(int(v) for v in e.L.shape), family_of(pred), lmr, dev)
+        fam = family_of(pred)
+        if est == "dim":
+            # the dimensionality estimator owns a second predictor (the density): same resolved type, same family
+            fam2 = family_of(e.predict_density)
+            if fam2 != fam:
+                fam = fam + "+" + fam2
+            dev = float(np.max(np.abs(np.asarray(e.predict_density(X)) - np.asarray(e.log_density_x))))
+        return ("ok", e.gp_type.value, tuple(int(v) for v in e.L.shape), fam, lmr, dev)
     except Exception as ex:
         return (exc_class(ex), str(ex))
 
@@ -441,6 +450,8 @@ def internal_signature(p, out):
             return "C15:function-matrix-sigma-internal"
         if form == "vecN":
             return "C15:function-vector-sigma-landmarks-internal"
+        if form.startswith("vecL"):
+            return "C15:function-wrong-length-sigma"
         if p.get("unc"):
             return "C15:function-landmarks-uncertainty-internal"
     return f"C15:internal:{est}:{out[0]}"
@@ -487,7 +498,12 @@ def case_est(ctx, res, p):
         if gp == "fixed" and nl_eff == 0:
             bad.append("fixed without landmarks")
         if lm_user is not None and p["nl"] is not None and int(p["nl"]) != int(lm_user):
-            bad.append("n_landmarks contradicts the landmarks given")
+            # `fixed` with n_landmarks > n falls back to the n cells as landmarks; such a model carries n landmark rows next to
+            # the larger request, and handing that state back (a repeated fit, a fresh model given the fitted landmarks) is legal
+            if not (gp == "fixed" and int(lm_user) == n < int(p["nl"])):
+                bad.append("n_landmarks contradicts the landmarks given")
+            else:
+                res.count("est:fixed_overrequest_with_cell_landmarks_accepted")
         if est != "function":
             r_eff = rank if rank is not None else ["F", 0.99 if gp_req in NYS else 1.0]
             if gp == "fixed":
@@ -533,7 +549,7 @@ def case_est(ctx, res, p):
                 res.oracle_fail(f"predictor family {fam} does not belong to gp_type {gp}", p,
                                 detail={"family": fam, "expected": FAMILY[gp], "max|predict(X)-log_density_x|": dev},
                                 signature=sig)
-            elif dev > 1e-2 and est != "dim":
+            elif dev > 1e-2:
                 res.oracle_fail("predictor does not reproduce the fitted values", p, detail={"dev": dev},
                                 signature="C15:predictor-wrong-basis")
             if p["unc"] and p["opt"] != "advi":
@@ -552,7 +568,12 @@ def case_est(ctx, res, p):
     # ---------------- oracle 4b: a per-cell sigma is the noise of the cells for every number of landmarks (m < n, m = n,
     # m > n): the configuration resolves exactly like the one with a scalar sigma (fixed defect 20d7957: the vector was
     # sized by the landmarks and refused for m != n)
-    if est == "function" and p.get("sigma") == "vecN":
+    if est == "function" and str(p.get("sigma")).startswith("vecL") and int(p["sigma"].split()[1]) != n:
+        res.count("est:function_wrong_length_sigma:" + out[0])
+        if out[0] == "ok":
+            res.oracle_fail("FunctionEstimator accepts a sigma vector whose length is not the number of cells", p,
+                            detail={"outcome": list(out[:4])}, signature="C15:function-wrong-length-sigma")
+    if est == "function" and (p.get("sigma") == "vecN" or p.get("sigma") == "vecL %d" % n):
         res.count("est:function_vector_sigma:" + ("no-landmarks" if p.get("lm") is None and p["nl"] is None else "landmarks"))
         ref = run_estimator({**p, "sigma": "scalar"})
         same = (out[0] == ref[0]) and (out[1:5] == ref[1:5] if out[0] == "ok" else reason_of(out[1]) == reason_of(ref[1]))
@@ -726,6 +747,22 @@ def run(ctx, res):
            est_cell("function", 12, 5, None, None, None, unc=True, sigma="vecN"),
            est_cell("function", 12, None, 10, None, ["S", "sparse_cholesky"], sigma="vecN"),
            est_cell("function", 6, None, None, None, None, sigma="mat 2"),
+           # a sigma vector that contradicts the number of cells (fixed defect: broadcast / internal shape error)
+           est_cell("function", 6, None, None, None, None, sigma="vecL 1"),
+           est_cell("function", 6, None, None, None, None, unc=True, sigma="vecL 5"),
+           est_cell("function", 6, None, 4, None, None, unc=True, sigma="vecL 1"),
+           est_cell("function", 6, None, 4, None, None, sigma="vecL 4"),
+           est_cell("function", 6, None, 6, None, ["S", "fixed"], sigma="vecL 7"),
+           est_cell("function", 6, None, 4, None, None, sigma="vecL 6"),
+           # fixed with more requested landmarks than cells: the state of the fitted model is accepted back
+           est_cell("density", 12, 13, 12, None, ["S", "fixed"]),
+           est_cell("density", 12, 5000, 12, None, ["S", "fixed"]),
+           est_cell("dim", 12, 13, 12, None, ["S", "fixed"]),
+           est_cell("time", 12, 13, 12, None, ["S", "fixed"]),
+           est_cell("density", 12, 13, 11, None, ["S", "fixed"]),
+           # the dimensionality estimator's two predictors (seeded change C15-e)
+           est_cell("dim", 12, None, 12, ["F", 0.5], None),
+           est_cell("dim", 12, None, 14, ["I", 3], ["S", "full_nystroem"]),
            est_cell("density", 6, 1, None, None, None),
            est_cell("density", 6, 0, None, None, ["S", "fixed"]),
            est_cell("density", 6, 3, None, None, None, unc=True, opt="adam"),
@@ -804,7 +841,8 @@ def run(ctx, res):
         if rng.random() < 0.1:
             gp = ["E", NAMES[rng.integers(5)]]
         if est == "function":
-            sg = ["scalar", "scalar", "vecN", "mat 2", "negative"][rng.integers(5)]
+            sg = ["scalar", "scalar", "vecN", "mat 2", "negative", "vecL 1", "vecL %d" % (n - 1), "vecL %d" % (n + 1),
+                  "vecL %d" % n][rng.integers(9)]
             p = est_cell(est, n, nl, lm, None, gp, unc=bool(rng.random() < 0.5), sigma=sg)
         else:
             r = grid_ranks(n)[rng.integers(11)]
